@@ -27,11 +27,13 @@ class LowerRescale(RewritePattern):
         # create constant ops:
         zp_in = ConstantOp.from_int_and_width(op.input_zp.value.data, builtin.IntegerType(32))
         zp_out = ConstantOp.from_int_and_width(op.output_zp.value.data, builtin.IntegerType(32))
-        shift = ConstantOp.from_int_and_width(int(op.shift.get_values()[0]), builtin.IntegerType(64))
+        # shift in two steps (by shift - 1, and by 1 after truncating to 32 bits), like the accelerator does
+        shift = ConstantOp.from_int_and_width(int(op.shift.get_values()[0]) - 1, builtin.IntegerType(64))
+        shift_one = ConstantOp.from_int_and_width(1, builtin.IntegerType(32))
         mult = ConstantOp.from_int_and_width(int(op.multiplier.get_values()[0]), builtin.IntegerType(64))
         min = ConstantOp.from_int_and_width(op.min_int.value.data, builtin.IntegerType(32))
         max = ConstantOp.from_int_and_width(op.max_int.value.data, builtin.IntegerType(32))
-        rewriter.insert_op([zp_in, zp_out, shift, mult, min, max], InsertPoint.before(linalg_op))
+        rewriter.insert_op([zp_in, zp_out, shift, shift_one, mult, min, max], InsertPoint.before(linalg_op))
 
         # create body ops:
         with_zp_in = SubiOp(op.input, zp_in)
@@ -39,12 +41,25 @@ class LowerRescale(RewritePattern):
         multed = MuliOp(extended, mult)
         shifted = ShRSIOp(multed, shift)
         trunced = TruncIOp(shifted, builtin.i32)
-        with_zp_out = AddiOp(trunced, zp_out)
+        shifted_final = ShRSIOp(trunced, shift_one)
+        with_zp_out = AddiOp(shifted_final, zp_out)
         clamped_max = MinSIOp(with_zp_out, max)
         clamped_min = MaxSIOp(clamped_max, min)
         trunced_final = TruncIOp(clamped_min, builtin.i8)
         rewriter.replace_op(
-            op, [with_zp_in, extended, multed, shifted, trunced, with_zp_out, clamped_max, clamped_min, trunced_final]
+            op,
+            [
+                with_zp_in,
+                extended,
+                multed,
+                shifted,
+                trunced,
+                shifted_final,
+                with_zp_out,
+                clamped_max,
+                clamped_min,
+                trunced_final,
+            ],
         )
 
 
